@@ -46,7 +46,7 @@ theorem drained_plan {infos : List Info} {need total : Int} {p : Plan} (hv : Val
     room for it) and `rest` (given nothing) -/
 theorem each_plan {infos : List Info} {need limit : Int} {p : Plan} (hv : Valid infos)
     (h : average infos need limit = .ok p) :
-    ∃ chosen rest : List Info, (chosen ++ rest).Perm infos ∧ (chosen.length : Int) = effLimit infos limit ∧
+    ∃ chosen rest : List Info, (chosen ++ rest).Perm infos ∧ (chosen.length : Int) = effLimitEach infos limit ∧
       (∀ i ∈ chosen, p.has i.name = true ∧ p.get i.name = need ∧ need ≤ i.cap) ∧
       (∀ j ∈ rest, p.has j.name = false ∧ p.get j.name = 0) ∧
       (∀ k, p.has k = true → k ∈ infos.map (·.name)) ∧
@@ -58,7 +58,7 @@ theorem each_plan {infos : List Info} {need limit : Int} {p : Plan} (hv : Valid 
   refine ⟨(isort averageLess infos).take l, (isort averageLess infos).drop l, ?_, ?_, hc, hr, ?_, ?_⟩
   · rw [List.take_append_drop]; exact hperm
   · rw [List.length_take, Nat.min_eq_left hln, hl]
-    simp [effLimit, hperm.length_eq]
+    simp [effLimitEach, hperm.length_eq]
   · intro k hkk; exact (hperm.map _).mem_iff.mp (hk k hkk)
   · intro i hi j hj
     have hs := hsorted
